@@ -22,7 +22,7 @@ def main(argv):
     from pymemcache.client.hash import HashClient
     classes = (Client, PooledClient, HashClient)
     rng = ctx.rng
-    ctx.rule = ("all 27 public data operations x interruption point {getaddrinfo, socket, connect, settimeout, sendall, every recv position 0..7(13)} x "
+    ctx.rule = ("every entry of faultrun.OPS (all public data operations, stats, cache_memlimit, shutdown) x interruption point {getaddrinfo, socket, connect, settimeout, sendall, every recv position 0..7(13)} x "
                 "{KeyboardInterrupt, SystemExit, BaseException subclass} x with/without a healthy warm-up call, followed by 2-3 healthy calls; classes Client, "
                 "PooledClient (max_pool_size 1 and 2), HashClient (plain and pooled); non-trivial = distinct (class, op, point, kind, warm-up)")
     ctx.exhaustive = True
